@@ -1,7 +1,7 @@
 /* Contract for CodeHolder::bind_label (property C03): every pending reference of the label is resolved to the bound position
  * (same section: the displacement written is label - reference + rel; other section: kept for later, tagged with the label;
  * relocation-carrying: payload rebased exactly once), failures are reported and stay counted, invalid arguments change nothing.
- * Bounds: <= 2 labels, 2 sections, 1 relocation entry, <= 2 pending fixups on the label, buffers <= VERIF_BUF bytes. */
+ * Bounds: 1 label entry, 2 sections, 1 relocation entry, <= 2 pending fixups on the label, buffers <= VERIF_BUF bytes. */
 #include "contracts/c17_offset.h"   /* write_offset is replaced by its contract (proved in unit c17.write_offset) */
 #include "spec/errors.h"
 #undef VERIF_GHOST_INIT
@@ -28,6 +28,9 @@ uint32_t g_le_sec0;                                 /* ghost: section id in the 
 #define LE(self, i) (&((struct LabelEntry*)LABELS(self)._data)[i])
 #define SECP(self, i) (((struct Section**)SECS(self)._data)[i])
 #define REL(self, i) (((struct RelocEntry**)RELS(self)._data)[i])
+/* the label's fixup chain head lives in the integer field _offset_or_fixups: it is given its object through this pointer-typed
+ * lvalue (is_fresh assigns it), because CBMC resolves dereferences by value sets, not by assumed equalities */
+#define FXHEAD(self) (*(struct Fixup**)&LE(self, 0)->_offset_or_fixups)
 #define FMT_WF_ANY(f) ((f)->_value_size == 8 ? (spec_format_wf((f)->_type, 8, (f)->_imm_bit_count, (f)->_imm_bit_shift, (f)->_imm_discard_lsb, 64) && (f)->_type <= 1) \
                                             : spec_format_wf((f)->_type, (f)->_value_size, (f)->_imm_bit_count, (f)->_imm_bit_shift, (f)->_imm_discard_lsb, 32))
 static inline uint64_t c_le64(const uint8_t* p, unsigned n) { uint64_t v = 0; for (unsigned i = 0; i < 8; i++) if (i < n) v |= (uint64_t)p[i] << (8 * i); return v; }
@@ -42,54 +45,53 @@ static inline _Bool c_fixup_ok(const struct CodeHolder* self, const struct Fixup
   return f->offset < s->_buffer._size && s->_buffer._size - f->offset >= f->format._region_size;
 }
 static inline _Bool c_bind_state(const struct CodeHolder* self, const struct Label* label) {
-  if (LABELS(self)._size > 2 || SECS(self)._size > 2 || SECS(self)._size < 1 || RELS(self)._size > 1) return 0;
+  if (LABELS(self)._size != 1 || SECS(self)._size > 2 || SECS(self)._size < 1 || RELS(self)._size > 1) return 0;
   for (unsigned i = 0; i < 2; i++) { if (SECP(self, i)->__b0._section_id != i || SECP(self, i)->_buffer._size > VERIF_BUF) return 0; }
   if (g_nfix > 2) return 0;
-  if (LBL_ID(label) < LABELS(self)._size) {
-    const struct LabelEntry* le = LE(self, LBL_ID(label));
-    if (le->_object_data != g_le_hdr || g_le_hdr->_section_id != g_le_sec0) return 0;
-    if (g_le_hdr->_section_id == INVALID_ID) {     /* unbound: the offset field holds the head of the fixup chain */
-      if (le->_offset_or_fixups != (g_nfix == 0 ? 0 : (uint64_t)g_fx0)) return 0;
-      if (g_nfix >= 1 && (g_fx0->next != (g_nfix == 2 ? g_fx1 : NULL) || !c_fixup_ok(self, g_fx0))) return 0;
-      if (g_nfix == 2 && (g_fx1->next != NULL || !c_fixup_ok(self, g_fx1))) return 0;
+  const struct LabelEntry* le = LE(self, 0);
+  if (le->_object_data != g_le_hdr || le->_object_data->_section_id != g_le_sec0) return 0;
+  if (g_le_sec0 == INVALID_ID) {                   /* unbound: the offset field holds the head of the fixup chain */
+    if (g_nfix == 0) { if (le->_offset_or_fixups != 0) return 0; }
+    else {
+      struct Fixup* h = FXHEAD(self);
+      if (g_fx0 != h || !c_fixup_ok(self, h)) return 0;
+      if (g_nfix == 1) { if (h->next != NULL) return 0; }
+      else {
+        if (g_fx1 != h->next || h->next->next != NULL || !c_fixup_ok(self, h->next)) return 0;
+        const struct Fixup* a = h; const struct Fixup* b = h->next;       /* two references never share bytes (they belong to different instructions) */
+        if (a->section_id == b->section_id && !(a->offset + a->format._region_size <= b->offset || b->offset + b->format._region_size <= a->offset)) return 0;
+      }
     }
   }
   return self->_unresolved_fixup_count >= g_nfix;
 }
+static inline _Bool c_fix_snap(const struct CodeHolder* self, const struct Fixup* f, const struct Fixup* g, uint64_t word) {
+  const uint8_t* a = (const uint8_t*)&f->format; const uint8_t* b = (const uint8_t*)&g->format;
+  for (unsigned i = 0; i < sizeof(struct OffsetFormat); i++) if (a[i] != b[i]) return 0;
+  if (g->section_id != f->section_id || g->label_or_reloc_id != f->label_or_reloc_id || g->offset != f->offset || g->rel != f->rel) return 0;
+  return word == c_le64(SECP(self, f->section_id)->_buffer._data + f->offset + f->format._value_offset, f->format._value_size);
+}
 static inline _Bool c_bind_snap(const struct CodeHolder* self) {
-  if (g_nfix >= 1) { if (g_f0.section_id != g_fx0->section_id || g_f0.label_or_reloc_id != g_fx0->label_or_reloc_id || g_f0.offset != g_fx0->offset || g_f0.rel != g_fx0->rel) return 0;
-    if (g_word0[0] != c_le64(SECP(self, g_f0.section_id)->_buffer._data + g_f0.offset + g_fx0->format._value_offset, g_fx0->format._value_size)) return 0; }
-  if (g_nfix == 2) { if (g_f1.section_id != g_fx1->section_id || g_f1.label_or_reloc_id != g_fx1->label_or_reloc_id || g_f1.offset != g_fx1->offset || g_f1.rel != g_fx1->rel) return 0;
-    if (g_word0[1] != c_le64(SECP(self, g_f1.section_id)->_buffer._data + g_f1.offset + g_fx1->format._value_offset, g_fx1->format._value_size)) return 0; }
+  if (g_le_sec0 == INVALID_ID && g_nfix >= 1 && !c_fix_snap(self, FXHEAD(self), &g_f0, g_word0[0])) return 0;
+  if (g_le_sec0 == INVALID_ID && g_nfix == 2 && !c_fix_snap(self, FXHEAD(self)->next, &g_f1, g_word0[1])) return 0;
   if (RELS(self)._size == 1 && g_payload0 != REL(self, 0)->_payload) return 0;
   return g_unresolved0 == self->_unresolved_fixup_count && g_holder_fixups0 == self->_fixups && g_pool0 == (void*)self->_fixup_data_pool._data;
 }
 /* classification of one pending fixup: 0 = resolved in place, 1 = kept (other section), 2 = kept (displacement does not fit), 3 = relocation rebased */
-static inline int c_fix_class(const struct Fixup* snap, const struct Fixup* live, uint32_t to_section, uint64_t to_offset) {
+static inline int c_fix_class(const struct Fixup* snap, uint32_t to_section, uint64_t to_offset) {
   if (snap->label_or_reloc_id != INVALID_ID) return 3;
   if (snap->section_id != to_section) return 1;
   int64_t disp = (int64_t)(to_offset - snap->offset + (uint64_t)snap->rel);
-  return spec_representable(disp, live->format._type, live->format._imm_bit_count, live->format._imm_discard_lsb) ? 0 : 2;
+  return spec_representable(disp, snap->format._type, snap->format._imm_bit_count, snap->format._imm_discard_lsb) ? 0 : 2;
 }
-/* postcondition for pending fixup number k (k < g_nfix); returns 0 or a clause number */
-static inline int c_fix_post(const struct CodeHolder* self, unsigned k, uint32_t label_id, uint32_t to_section, uint64_t to_offset) {
-  const struct Fixup* snap = k == 0 ? &g_f0 : &g_f1; const struct Fixup* live = k == 0 ? g_fx0 : g_fx1;
-  int c = c_fix_class(snap, live, to_section, to_offset);
-  if (c == 1 || c == 2) {                                        /* kept: tagged with the label, still describes the same site */
-    if (live->label_or_reloc_id != label_id || live->section_id != snap->section_id || live->offset != snap->offset || live->rel != snap->rel) return 10 + c;
-    return 0;
-  }
-  if (c == 3) {                                                  /* relocation: target section recorded */
-    if (REL(self, 0)->_target_section_id != to_section) return 13;
-    return 0;
-  }
-  /* resolved in place: the field now decodes to label - site + rel (given the reference site left the field zero), other bits kept */
+/* resolved in place: the field now decodes to label - site + rel (given the reference site left the field zero), other bits kept */
+static inline int c_fix_resolved(const struct CodeHolder* self, const struct Fixup* snap, uint64_t word0, uint64_t to_offset) {
   const struct Section* s = SECP(self, snap->section_id);
-  uint64_t w = c_le64(s->_buffer._data + snap->offset + live->format._value_offset, live->format._value_size);
-  uint64_t m = spec_field_mask(live->format._type, live->format._imm_bit_count, live->format._imm_bit_shift);
+  uint64_t w = c_le64(s->_buffer._data + snap->offset + snap->format._value_offset, snap->format._value_size);
+  uint64_t m = spec_field_mask(snap->format._type, snap->format._imm_bit_count, snap->format._imm_bit_shift);
   int64_t disp = (int64_t)(to_offset - snap->offset + (uint64_t)snap->rel);
-  if ((w & ~m) != (g_word0[k] & ~m)) return 14;
-  if ((g_word0[k] & m) == 0 && spec_offset_decode(w, live->format._type, live->format._imm_bit_count, live->format._imm_bit_shift, live->format._imm_discard_lsb) != disp) return 15;
+  if ((w & ~m) != (word0 & ~m)) return 14;
+  if ((word0 & m) == 0 && spec_offset_decode(w, snap->format._type, snap->format._imm_bit_count, snap->format._imm_bit_shift, snap->format._imm_discard_lsb) != disp) return 15;
   return 0;
 }
 static inline int c_bind_post(const struct CodeHolder* self, const struct Label* label, uint32_t to_section, uint64_t to_offset, uint32_t ret) {
@@ -97,26 +99,28 @@ static inline int c_bind_post(const struct CodeHolder* self, const struct Label*
   if (id >= LABELS(self)._size) return ret == E_INVALID_LABEL ? 0 : 1;
   if (to_section >= SECS(self)._size) return ret == E_INVALID_SECTION ? 0 : 2;
   if (g_le_sec0 != INVALID_ID) return ret == E_LABEL_ALREADY_BOUND ? 0 : 3;
-  const struct LabelEntry* le = LE(self, id);
-  /* bound: section and offset recorded */
-  if (le->_object_data->_section_id != to_section || le->_offset_or_fixups != to_offset) return 4;
-  unsigned resolved = 0, failed = 0, kept = 0;
+  const struct LabelEntry* le = LE(self, 0);
+  if (le->_object_data->_section_id != to_section || le->_offset_or_fixups != to_offset) return 4;      /* bound: section and offset recorded */
+  unsigned resolved = 0, failed = 0, kept = 0, nrel = 0;
+  const struct Fixup* p = self->_fixups;               /* kept fixups are moved, in order, to the front of the holder's cross-section list */
   for (unsigned k = 0; k < 2; k++) {
     if (k >= g_nfix) break;
-    int c = c_fix_class(k == 0 ? &g_f0 : &g_f1, k == 0 ? g_fx0 : g_fx1, to_section, to_offset);
+    const struct Fixup* snap = k == 0 ? &g_f0 : &g_f1;
+    int c = c_fix_class(snap, to_section, to_offset);
     if (c == 0 || c == 3) resolved++; else kept++;
     if (c == 2) failed++;
-    int p = c_fix_post(self, k, id, to_section, to_offset);
-    if (p) return p;
+    if (c == 3) { nrel++; if (REL(self, 0)->_target_section_id != to_section) return 13; }
+    if (c == 0) { int r = c_fix_resolved(self, snap, g_word0[k], to_offset); if (r) return r; }
+    if (c == 1 || c == 2) {                              /* kept: same record, tagged with the label, still describing the same site */
+      if (p != (k == 0 ? g_fx0 : g_fx1)) return 10;
+      if (p->label_or_reloc_id != id || p->section_id != snap->section_id || p->offset != snap->offset || p->rel != snap->rel) return 11;
+      p = p->next;
+    }
   }
-  if (self->_unresolved_fixup_count != g_unresolved0 - resolved) return 5;           /* exactly the resolved ones leave the count */
+  if (p != g_holder_fixups0) return 8;                                                    /* ... followed by what was there before */
+  if (self->_unresolved_fixup_count != g_unresolved0 - resolved) return 5;               /* exactly the resolved ones leave the count */
   if (ret != (failed ? E_INVALID_DISPLACEMENT : E_OK)) return 6;
-  if (RELS(self)._size == 1) {                                                          /* payload rebased once per relocation-carrying fixup */
-    unsigned nrel = (g_nfix >= 1 && g_f0.label_or_reloc_id != INVALID_ID) + (g_nfix == 2 && g_f1.label_or_reloc_id != INVALID_ID);
-    if (REL(self, 0)->_payload != g_payload0 + nrel * to_offset) return 7;
-  }
-  if (kept == 0 && self->_fixups != g_holder_fixups0) return 8;                         /* kept fixups move to the holder's cross-section list */
-  if (kept > 0 && self->_fixups == g_holder_fixups0) return 9;
+  if (RELS(self)._size == 1 && REL(self, 0)->_payload != g_payload0 + nrel * to_offset) return 7;   /* payload rebased once per relocation-carrying fixup */
   return 0;
 }
 
@@ -125,18 +129,20 @@ static inline int c_bind_post(const struct CodeHolder* self, const struct Label*
 #define CONTRACT_CodeHolder_bind_label \
   __CPROVER_requires(__CPROVER_is_fresh(self, sizeof(*self))) \
   __CPROVER_requires(__CPROVER_is_fresh(label, sizeof(*label))) \
-  __CPROVER_requires(__CPROVER_is_fresh(LABELS(self)._data, 2 * sizeof(struct LabelEntry))) \
+  __CPROVER_requires(__CPROVER_is_fresh(LABELS(self)._data, sizeof(struct LabelEntry))) \
   __CPROVER_requires(__CPROVER_is_fresh(SECS(self)._data, 2 * sizeof(struct Section*))) \
   FRESH_SEC(self, 0) FRESH_SEC(self, 1) \
   __CPROVER_requires(__CPROVER_is_fresh(RELS(self)._data, sizeof(struct RelocEntry*))) \
   __CPROVER_requires(__CPROVER_is_fresh(REL(self, 0), sizeof(struct RelocEntry))) \
-  __CPROVER_requires(__CPROVER_is_fresh(g_le_hdr, sizeof(struct SectionOrLabelEntryExtraHeader) + 8)) \
-  __CPROVER_requires(__CPROVER_is_fresh(g_fx0, sizeof(struct Fixup))) \
-  __CPROVER_requires(__CPROVER_is_fresh(g_fx1, sizeof(struct Fixup))) \
+  __CPROVER_requires(__CPROVER_is_fresh(LE(self, 0)->_object_data, sizeof(struct SectionOrLabelEntryExtraHeader) + 8)) \
+  __CPROVER_requires(g_nfix == 0 || __CPROVER_is_fresh(FXHEAD(self), sizeof(struct Fixup))) \
+  __CPROVER_requires(g_nfix != 2 || __CPROVER_is_fresh(FXHEAD(self)->next, sizeof(struct Fixup))) \
   __CPROVER_requires(self->_fixups == NULL || __CPROVER_is_fresh(self->_fixups, sizeof(struct Fixup))) \
   __CPROVER_requires(c_bind_state(self, label) && c_bind_snap(self)) \
   __CPROVER_requires(to_offset <= ((uint64_t)1 << 40)) \
-  __CPROVER_assigns(*self, __CPROVER_object_whole(LABELS(self)._data), __CPROVER_object_whole(g_le_hdr), __CPROVER_object_whole(g_fx0), __CPROVER_object_whole(g_fx1), \
+  __CPROVER_assigns(*self, __CPROVER_object_whole(LABELS(self)._data), __CPROVER_object_whole(LE(self, 0)->_object_data), \
      __CPROVER_object_whole(REL(self, 0)), __CPROVER_object_whole(SECP(self, 0)->_buffer._data), __CPROVER_object_whole(SECP(self, 1)->_buffer._data)) \
+  __CPROVER_assigns(g_nfix >= 1: __CPROVER_object_whole(FXHEAD(self))) \
+  __CPROVER_assigns(g_nfix == 2: __CPROVER_object_whole(FXHEAD(self)->next)) \
   __CPROVER_ensures(c_bind_post(self, label, to_section_id, to_offset, __CPROVER_return_value) == 0)
 #endif
